@@ -17,6 +17,8 @@ import (
 	"net/netip"
 	"os"
 	"path/filepath"
+	"reflect"
+	"sort"
 	"strconv"
 	"strings"
 	"unsafe"
@@ -177,7 +179,11 @@ func Observe(s *packet.Session, buf, p []byte) (o Obs) {
 	if f.Host != nil {
 		host = "host:" + lib.Hex(f.Host.Addr.MAC) + "/" + ipTok(f.Host.Addr.IP)
 	}
-	o.Full = o.C02 + " sm:" + macTok(f.SrcAddr.MAC) + " dm:" + macTok(f.DstAddr.MAC) + " " + host
+	logTok := "ok"
+	if panicked, _ := lib.Catch(func() { f.Log(packet.Logger.Msg("")) }); panicked {
+		logTok = "panic"
+	}
+	o.Full = o.C02 + " sm:" + macTok(f.SrcAddr.MAC) + " dm:" + macTok(f.DstAddr.MAC) + " " + host + " L:" + logTok
 	o.F = f
 	o.Ok = true
 	return o
@@ -916,4 +922,35 @@ func Corpus(r *lib.Run) {
 			r.Stat("class.corpus", 1)
 		}
 	}
+}
+
+
+// FrameAPI: the exported surface of packet.Frame by reflection (methods of *Frame, which include the value-receiver
+// ones, with their signatures; exported fields with their types), sorted, as one canonical line.  The model side
+// (coq/Model/ParseShow.v frame_api) lists what the accessor theorems cover; a method or field added to Frame makes
+// the two differ.
+func FrameAPI() string {
+	t := reflect.TypeOf(&packet.Frame{})
+	var ms []string
+	for i := 0; i < t.NumMethod(); i++ {
+		m := t.Method(i)
+		var in, out []string
+		for j := 1; j < m.Type.NumIn(); j++ {
+			in = append(in, m.Type.In(j).String())
+		}
+		for j := 0; j < m.Type.NumOut(); j++ {
+			out = append(out, m.Type.Out(j).String())
+		}
+		ms = append(ms, m.Name+"("+strings.Join(in, ";")+")"+strings.Join(out, ";"))
+	}
+	sort.Strings(ms)
+	var fs []string
+	e := t.Elem()
+	for i := 0; i < e.NumField(); i++ {
+		if f := e.Field(i); f.IsExported() {
+			fs = append(fs, f.Name+":"+f.Type.String())
+		}
+	}
+	sort.Strings(fs)
+	return strings.ReplaceAll("methods="+strings.Join(ms, ",")+" fields="+strings.Join(fs, ","), "\t", "")
 }
